@@ -122,7 +122,7 @@ Proof.
 Qed.
 
 Lemma site_len s : (length (site_pushes s) <= 4)%nat.
-Proof. destruct s; simpl; lia. Qed.
+Proof. destruct s; simpl; try lia. destruct clustered; simpl; lia. Qed.
 
 Definition step_post (st st' : bst) (oc : option call) (ok : bool) : Prop :=
   match oc with
@@ -165,11 +165,11 @@ Proof.
                        else emit_front toolarge st (build_iov (site_pushes s)) accept in
               step_post st (fst (fst r)) (snd (fst r)) (negb (snd r =? 0)))
     by (apply emit_site_generic; assumption).
-  destruct s as [p| | | |vt cl| | | | ]; try (cbn [emit_site]; apply G; cbn [site_back]; discriminate).
+  destruct s as [p| | | |vt vp cl| | | | ]; try (cbn [emit_site]; apply G; cbn [site_back]; discriminate).
   - destruct Hv as [Hv Hp]. pose proof (Forall_inv Hv) as Hp0. cbn [fst] in Hp0.
     destruct p as [|p|p]; [cbn; auto| |lia].
     cbn [emit_site]. apply G. intros _. cbn [site_pushes]. rewrite single_push; lia.
-  - destruct Hv as [Hv Hp]. cbn [emit_site]. apply G. cbn [site_back]. intros _. cbn [site_pushes].
+  - destruct Hv as [Hv Hp]. cbn [emit_site]. apply G. cbn [site_back]. intros Hcl. subst cl. cbn [site_pushes].
     rewrite single_push; lia.
 Qed.
 
@@ -196,6 +196,20 @@ Proof.
   unfold B, bst_init; simpl; lia.
 Qed.
 
+(* with reset and reuse: every round, also after failed or abandoned ones, starts again from zero *)
+Theorem emit_stream_ok_rounds : forall toolarge, rejects_above_4g toolarge ->
+  forall rounds, Forall (Forall (fun x => valid_site (fst x))) rounds ->
+  Forall (stream_ok 0 0) (run_rounds toolarge bst_init rounds).
+Proof.
+  intros toolarge Hr.
+  assert (G : forall rounds st, st = bst_init -> Forall (Forall (fun x => valid_site (fst x))) rounds ->
+              Forall (stream_ok 0 0) (run_rounds toolarge st rounds)).
+  { induction rounds as [|h r IH]; intros st Hst Hv; cbn [run_rounds]; constructor.
+    - subst st. apply emit_stream_ok; [exact Hr|exact (Forall_inv Hv)].
+    - apply IH; [reflexivity|exact (Forall_inv_tail Hv)]. }
+  intros rounds Hv. apply G; [reflexivity|exact Hv].
+Qed.
+
 Lemma fixed_rejects : rejects_above_4g toolarge_fixed.
 Proof. intros len H. unfold toolarge_fixed, SOFFSET_MAX. lia. Qed.
 
@@ -218,7 +232,8 @@ Qed.
 
 (* the inventory used by the source scan agrees with the site model *)
 Lemma site_inventory_ok :
-  map (fun s => (Z.of_nat (length (site_pushes s)), true, site_back s)) site_repr =
-  map (fun x => (fst (fst x), true, snd x)) site_inventory /\
+  map (fun s => (Z.of_nat (length (site_pushes s)), true)) site_repr_max =
+  map (fun x => (fst (fst x), true)) site_inventory /\
+  map site_back site_repr = map snd site_inventory /\
   length site_repr = 9%nat.
-Proof. vm_compute. split; reflexivity. Qed.
+Proof. vm_compute. repeat split; reflexivity. Qed.
